@@ -528,4 +528,9 @@ theorem decodeNat_encodeNat (n : Nat) : decodeNat (encodeNat n) = some n := by
 theorem decodeU64_encodeNat (n : Nat) (h : n < 18446744073709551616) : decodeU64 (encodeNat n) = some n := by
   simp [decodeU64, decodeNat_encodeNat, h]
 
+theorem encodeNat_head (n : Nat) : ∃ d rest, encodeNat n = (48 + d) :: rest ∧ d < 10 := by
+  obtain ⟨d, rest, h1, h2, _⟩ := natDigits_head (n + 1) n [] (by omega)
+  exact ⟨d, rest, h1, h2⟩
+
+
 end Jrpc
